@@ -2,7 +2,7 @@
 // under the cooperative scheduler with a virtual clock, fed by a command script (C10, C06, scheduled part of C05).
 //   h_cos <scriptfile> seed=N [strategy=random|pct] [pct=D] [spurious=P] [unlock=1] [nsPerNode=N] [maxsteps=N]
 // Script lines:  "<wait> <n> | <command>"   wait: now | steps | best | ms | tb (n-th line containing 'tbhits')
-// Output (stdout): IN/OUT/EV/LIM/POLL lines with scheduler step, virtual time (us) and thread id; RESULT line.
+// Output (stdout): IN/OUT/EV/LIM/POLL/WAKE lines with scheduler step, virtual time (us) and thread id; RESULT line.
 #include "cosched.hpp"
 #include "uciprotocol.hpp"
 #include "computerPlayer.hpp"
@@ -135,6 +135,7 @@ int main(int argc, char** argv) {
     OutBuf ob; InBuf ib;
     std::streambuf* oldOut = std::cout.rdbuf(&ob); std::streambuf* oldIn = std::cin.rdbuf(&ib);
     VerifHook::Hooks& h = VerifHook::hooks();
+    cosched::setWakeHandler([]() { if (cosched::threadId() == 0) logLine("WAKE", "0"); });   // end of a MaxNPS throttle sleep inside the stop test
     h.clockMillis = hClockMs; h.clockSeconds = hClockS; h.nodeTick = hTick; h.timeLimit = hLimit; h.stopTest = hStopTest; h.event = hEvent;
     if (evalCheckEvery > 0) h.eval = hEval;
     cosched::setDeadlockHandler([](const char* states) { fprintf(gLog, "RESULT deadlock %s\n", states); fflush(gLog); });
